@@ -100,12 +100,31 @@ CHECKS = {
         category="fault_enumeration", design_ref="3/C11",
         technique="enumeration of bind-fault patterns (3^6 assignments of {ok, EADDRINUSE, EACCES} to port x attempt) and of session-end positions inside the passive listener start-up (iteration-indexed), plus Hypothesis histories; oracle = port multiset invariant + listener table",
         text="simnet injects bind failures per (port, attempt) and ends sessions (peer disconnect or Server.close()) n loop iterations after PASV/EPSV was sent, for n = 0..15, 1-3 sessions at once on 1-3 port pools; Hypothesis adds generated multi-session histories with random fault patterns and network tapes. At quiescence after every event: multiset(pool) + ports bound by live sessions = configured set, the network's listener table holds exactly the bound ports, announced ports are configured and unshared, 421 only when no free port was bindable, and finally the pool is complete, no listener is left and a fresh session can still get a port.",
-        note="Trusted: simnet's create_server mirrors CPython 3.12's suspension points. The defect found here and in C12 (session end during start-up loses the port / leaks the listener) is fixed in 98b46c7. Mutants caught: port returned only on EADDRINUSE; NoAvailablePort not an OSError; give-back dropped from the dispatcher's finally; cancel path not returning the port."),
+        note="Trusted: simnet's create_server mirrors CPython 3.12's suspension points. Defects found here: F2 (session end during start-up loses the port / leaks the listener, fixed 98b46c7), F15 (pipelined passive commands, fixed 1e067c2), F16 (421 while an untried port was free, fixed 7cc164d). Mutants caught: port returned only on EADDRINUSE; NoAvailablePort not an OSError; give-back dropped from the dispatcher's finally; cancel path not returning the port."),
     "C12": dict(
         category="fault_enumeration", design_ref="3/C12",
         technique="enumeration of cut positions (peer vanishes / write-then-FIN / Server.close() at every network delivery event of every corpus script, iteration-indexed alignment sweeps) on a simulated network, plus Hypothesis-sampled schedule tapes; oracle = resource ledger",
         text="Unmodified aioftp server on simnet (virtual-time asyncio loop + in-memory TCP model). For every script of the corpus and every delivery event k the session is cut (peer closes all sockets; peer writes then FINs; Server.close()), under 4 network modes; 14x14 iteration-indexed sweeps align session end with a data connect and with the passive listener start-up; Hypothesis samples tapes, backend delays, backends, neighbour sessions and port pools. After each cut the ledger must be empty one virtual second later (server-side sockets, passive listeners, backend handles, connection table, tasks, port pool) and Server.close() must complete leaving nothing.",
         note="Trusted base: simnet (calibrated: the repo test-suite passes on it with the same single baseline failure), CPython BaseEventLoop scheduling. Exhaustive only relative to the corpus scripts and the 4 fixed network modes. Found and fixed 3 defects (KNOWN_FINDINGS)."),
+}
+
+# parts added after the first version of each check (appended to the level text)
+ADDED = {
+    "C01": " Also through Client.upload/download of whole files, and with server options that must not matter (block size, timeouts, non-binding limits) drawn per case.",
+    "C02": " The wire part runs two users with different bases on one server and re-logs-in on the same connection (each access must be inside the base of the user logged in when the command was sent). Part 'window': commands (CWD, CDUP, USER, MKD) sent between a transfer's 150 and its data connection must not change the location served or stored (metamorphic against the run without them).",
+    "C04": " Part 'window': the C02 window relation with permission-restricted locations - the location whose permission was checked is the one the worker uses.",
+    "C05": " Part 'real' runs the same walks over real loopback sockets on the stock asyncio loop, so simnet traces are validated against the implementation on a real network stack.",
+    "C06": " Foreign codes are also placed on interior continuation lines (rejection demanded); part 'cmdloop' drives Client.command with generated expected/wait codes against generated reply sequences.",
+    "C08": " Glob-flavoured names ('report[1]', 'st*r', 'wha?', '[!x]') get decoy siblings that a pattern reading would match; listings must contain exactly the named entry and the decoys.",
+    "C10": " Session ends also by QUIT + RST and command + RST (transport.abort()), so the release path behind a failing reply write is covered.",
+    "C11": " Histories include re-USER on a session that holds a listener, two passive commands pipelined in one segment (one listener, one port, two answers) and a four-session history in which pool priorities diverge.",
+    "C12": " Cut family 'write_then_rst' resets the connection right after a command (the reply write fails); a slow-I/O backend mode makes open()/read()/write() suspend; the thorough tier re-runs the simnet calibration (repository suite on simnet).",
+    "C13": " The exception type rotates over 15 types (OSError subclasses, TimeoutError, KeyError, asyncio.TimeoutError, ...); AsyncPathIO path_timeout overruns are injected; part 'pipelined' sends command batches while a fault is pending (every command still gets exactly one completion reply).",
+    "C14": " Backend delays include open()/close(); part 'backpressure' sends ABOR while the server's data writes are blocked by a client that does not read.",
+    "C15": " Login choreographies (pending USER while another session of the user leaves, re-USER, early bird, wrong password first) and part 'relogin' (data connection opened as user A, re-login as user B, transfer on the existing connection: B's limit applies, A's never delays it).",
+    "C17": " Payload sizes are session-specific and 14 backend operations can be delayed, so facts or offsets leaking between sessions show in the bytes.",
+    "C19": " The hostile-client part also counts server-wide and per-user connection slots as session resources. The 'line not dropped' rule uses an independent reading of the line (plain column split under both column conventions; './.' counts as a dot entry) and reports only if every reading names a non-dot entry.",
+    "C20": " Scenarios also: over-limit user / server (530/421 replies), error paths, clients with latin-1 / ASCII encoding and passwords they cannot encode (the third twin is skipped there, counted).",
 }
 
 NOT_YET = {}
@@ -127,7 +146,7 @@ def main():
             evidence_file=f"/verif/evidence/{pid}.json",
             replay_cmd_template=f"./run_check.py {pid} --replay {{path}}",
             engine="simnet+hypothesis" if c.get("sim", True) else "hypothesis",
-            level_claimed=dict(category=c["category"], text=c["text"], design_ref=c["design_ref"]),
+            level_claimed=dict(category=c["category"], text=c["text"] + ADDED.get(pid, ""), design_ref=c["design_ref"]),
             level_note=c["note"],
             technique=c["technique"],
         ))
